@@ -6,88 +6,141 @@
 (* sdk/src/clients/consumer.rs: one action per step the code takes on the  *)
 (* wire or towards the application.  The property predicates are in        *)
 (* IggySdkProps (shared with the trace specification).                     *)
+(*                                                                         *)
+(* Three places where the code as found went wrong are kept as constants,  *)
+(* so that TLC refutes the as-found variants (negative controls) and       *)
+(* checks the repaired one:                                                *)
+(*   CatchUp  "none"        as found: a poll whose messages were all       *)
+(*                          consumed already commits nothing (D28: stall   *)
+(*                          when the cadence is coarser than the batch)    *)
+(*            "lagging"     first repair (be1179c): commit the consumed    *)
+(*                          offset if the LOCALLY remembered stored offset *)
+(*                          is behind - but that memory defaults to 0,     *)
+(*                          i.e. "offset 0 stored" (D29: stall at 0)       *)
+(*            "nothing_new" repaired (6a777a7): such a poll proves the     *)
+(*                          server lags; commit the consumed offset        *)
+(*   Zombie   TRUE          as found: the interval task outlives the       *)
+(*                          consumer object (D30)                          *)
 (***************************************************************************)
 EXTENDS IggySdkProps
 
-(* ---- Part 2: reference algorithm (strategy "next") ---- *)
-CONSTANTS Parts, MaxLen, Batches, Modes, Nth,
-          CatchUp   \* TRUE: the consumer as repaired (fix be1179c); FALSE: as found - Complete fails for the mode "nth"
-VARIABLES len, committed, alive, buf, lastC, hasC, queue, rr,
+CONSTANTS Parts, MaxLen, Batches, Modes, Nth, CatchUp, Zombie
+VARIABLES len,        \* [Parts -> Nat] messages in each partition (offsets 0..len-1)
+          committed,  \* [Parts -> Int] offset stored on the server for the consumer identity (-1: none)
+          alive, buf, lastC, hasC,
+          lstored,    \* [Parts -> Nat] the consumer's local memory of what it stored (last_stored_offsets: absent = 0 !)
+          queue,      \* commits handed to the background task (they outlive the consumer object)
+          zc, zs,     \* the dropped consumer's consumed / locally-stored offsets, still used by its interval task (Zombie)
+          rr,
           batch, mode, group,            \* settings, fixed by Init
-          ylast, ystart, yset, everY, everF, ok
-avars == <<len, committed, alive, buf, lastC, hasC, queue, rr, batch, mode, group, ylast, ystart, yset, everY, everF, ok>>
+          ylast, ystart, yset, everY, everF, ok,
+          liveStored  \* [Parts -> Int] highest offset the LIVE incarnation has committed itself (-1: none)
+avars == <<len, committed, alive, buf, lastC, hasC, lstored, queue, zc, zs, rr, batch, mode, group,
+           ylast, ystart, yset, everY, everF, ok, liveStored>>
 None == [p \in Parts |-> -1]
+Zero == [p \in Parts |-> 0]
 
-AInit == /\ len = [p \in Parts |-> 0] /\ committed = None /\ alive = TRUE /\ buf = <<>>
-         /\ lastC = None /\ hasC = [p \in Parts |-> FALSE] /\ queue = <<>> /\ rr = 1
+AInit == /\ len = Zero /\ committed = None /\ alive = TRUE /\ buf = <<>>
+         /\ lastC = None /\ hasC = [p \in Parts |-> FALSE] /\ lstored = Zero /\ queue = <<>> /\ zc = None /\ zs = Zero /\ rr = 1
          /\ batch \in Batches /\ mode \in Modes /\ group \in BOOLEAN
          /\ ylast = None /\ ystart = None /\ yset = [p \in Parts |-> {}] /\ everY = None /\ everF = None /\ ok = TRUE
+         /\ liveStored = None
 Settings == <<batch, mode, group>>
+Hist == <<ylast, ystart, yset, everY, everF, ok>>
 
 Produce(p) == /\ len[p] < MaxLen /\ len' = [len EXCEPT ![p] = @ + 1]
-              /\ UNCHANGED <<committed, alive, buf, lastC, hasC, queue, rr, Settings, ylast, ystart, yset, everY, everF, ok>>
+              /\ UNCHANGED <<committed, alive, buf, lastC, hasC, lstored, queue, zc, zs, rr, Settings, Hist, liveStored>>
+
+(* store_consumer_offset(): skipped when the local memory says it is stored already - except offset 0, which is never skipped *)
+Skipped(mem, p, o) == o >= 1 /\ o <= mem[p]
 
 Served == IF group THEN rr ELSE 1
 RawOf(p) == LET from == committed[p] + 1  to == MinOf(from + batch - 1, len[p] - 1)
             IN  [i \in 1..MaxOf(to - from + 1, 0) |-> from + i - 1]
 KeptOf(p) == SelectSeq(RawOf(p), LAMBDA o : ~hasC[p] \/ o > lastC[p])
-CatchUpWould(p) == /\ CatchUp /\ mode \notin PollingModes /\ mode # "manual"
-                   /\ RawOf(p) # <<>> /\ KeptOf(p) = <<>> /\ hasC[p] /\ committed[p] < lastC[p]
+NothingNew(p) == RawOf(p) # <<>> /\ KeptOf(p) = <<>> /\ hasC[p]
+CatchUpWould(p) == /\ mode \notin PollingModes /\ mode # "manual" /\ NothingNew(p)
+                   /\ \/ CatchUp = "nothing_new"
+                      \/ (CatchUp = "lagging" /\ lstored[p] < lastC[p])
 (* one poll_messages request: the server answers from the committed offset; what was already consumed is filtered *)
 Fetch == /\ alive /\ buf = <<>>
          /\ LET p == Served  raw == RawOf(p)  kept == KeptOf(p) IN
-            /\ buf' = [i \in 1..Len(kept) |-> <<p, kept[i]>>]
-            /\ committed' = IF mode \in PollingModes /\ raw # <<>> THEN [committed EXCEPT ![p] = raw[Len(raw)]]
-                            \* nothing new although the poll brought messages: the stored offset lags behind the consumed one
-                            \* (coarse commit cadence); the consumed offset is committed so that the next poll moves on
-                            ELSE IF CatchUpWould(p) THEN [committed EXCEPT ![p] = lastC[p]]
-                            ELSE committed
+            /\ buf' = [i \in 1..Len(kept) |-> <<p, kept[i], len[p] - 1>>]   \* (partition, offset, the partition's current offset as answered)
+            /\ IF mode \in PollingModes /\ raw # <<>>
+               THEN /\ committed' = [committed EXCEPT ![p] = raw[Len(raw)]]          \* the server commits on fetch
+                    /\ lstored' = [lstored EXCEPT ![p] = MaxOf(lastC[p], 0)] /\ UNCHANGED liveStored
+               ELSE IF CatchUpWould(p)
+               THEN /\ committed' = [committed EXCEPT ![p] = lastC[p]] /\ lstored' = [lstored EXCEPT ![p] = lastC[p]]
+                    /\ liveStored' = [liveStored EXCEPT ![p] = MaxOf(@, lastC[p])]
+               ELSE UNCHANGED <<committed, lstored, liveStored>>
             /\ everF' = IF raw # <<>> THEN [everF EXCEPT ![p] = MaxOf(@, raw[Len(raw)])] ELSE everF
             /\ ystart' = IF raw # <<>> /\ ystart[p] = -1 THEN [ystart EXCEPT ![p] = raw[1]] ELSE ystart
             /\ rr' = IF group THEN (rr % Cardinality(Parts)) + 1 ELSE rr
-         /\ UNCHANGED <<len, alive, lastC, hasC, queue, Settings, ylast, yset, everY, ok>>
+         /\ UNCHANGED <<len, alive, lastC, hasC, queue, zc, zs, Settings, ylast, yset, everY, ok>>
 
-CommitOnYield(o, last) == \/ mode \in {"each", "interval_or_each", "manual"}
-                          \/ (mode \in {"nth", "interval_or_nth"} /\ o % Nth = 0)
-                          \/ (mode \in {"all", "interval_or_all"} /\ last)
+(* the When(...) modes commit inside the Stream; the After(...) modes of consume_messages() after the application's handler:   *)
+(* the same moment at this grain - except that "after all" means the end of the PARTITION as answered, not of the batch      *)
+CommitOnYield(o, last, cur) == \/ mode \in {"each", "interval_or_each", "manual", "after_each", "interval_or_after_each"}
+                               \/ (mode \in {"nth", "interval_or_nth", "after_nth", "interval_or_after_nth"} /\ o % Nth = 0)
+                               \/ (mode \in {"all", "interval_or_all"} /\ last)
+                               \/ (mode \in {"after_all", "interval_or_after_all"} /\ o = cur)
 (* the Stream hands one message to the application *)
 Yield == /\ alive /\ buf # <<>>
          /\ LET p == Head(buf)[1]  o == Head(buf)[2] IN
             /\ buf' = Tail(buf)
             /\ lastC' = [lastC EXCEPT ![p] = o] /\ hasC' = [hasC EXCEPT ![p] = TRUE]
-            /\ queue' = IF CommitOnYield(o, Tail(buf) = <<>>) THEN Append(queue, <<p, o>>) ELSE queue
+            /\ queue' = IF CommitOnYield(o, Tail(buf) = <<>>, Head(buf)[3]) THEN Append(queue, <<p, o, alive>>) ELSE queue
             /\ ok' = (ok /\ YieldInOrder(ylast, ystart, p, o))
             /\ ylast' = [ylast EXCEPT ![p] = o] /\ yset' = [yset EXCEPT ![p] = @ \cup {o}]
             /\ everY' = [everY EXCEPT ![p] = MaxOf(@, o)]
-         /\ UNCHANGED <<len, committed, alive, rr, Settings, ystart, everF>>
-(* the background task delivers one queued commit (it outlives the consumer object) *)
+         /\ UNCHANGED <<len, committed, alive, lstored, zc, zs, rr, Settings, ystart, everF, liveStored>>
+(* the background task delivers one queued commit; it belongs to the live consumer (its memory applies) or to a dropped one *)
 Deliver == /\ queue # <<>>
-           /\ committed' = [committed EXCEPT ![Head(queue)[1]] = Head(queue)[2]]
+           /\ LET p == Head(queue)[1]  o == Head(queue)[2] IN
+              IF alive /\ Skipped(lstored, p, o)
+              THEN UNCHANGED <<committed, lstored, liveStored>>
+              ELSE /\ committed' = [committed EXCEPT ![p] = o]
+                   /\ IF alive THEN lstored' = [lstored EXCEPT ![p] = o] /\ liveStored' = [liveStored EXCEPT ![p] = MaxOf(@, o)]
+                      ELSE UNCHANGED <<lstored, liveStored>>
            /\ queue' = Tail(queue)
-           /\ UNCHANGED <<len, alive, buf, lastC, hasC, rr, Settings, ylast, ystart, yset, everY, everF, ok>>
+           /\ UNCHANGED <<len, alive, buf, lastC, hasC, zc, zs, rr, Settings, Hist>>
 (* the interval task stores the consumed offset of some partition *)
 IntervalTick == /\ alive /\ mode \in IntervalModes
-                /\ \E p \in Parts : hasC[p] /\ committed' = [committed EXCEPT ![p] = lastC[p]]
-                /\ UNCHANGED <<len, alive, buf, lastC, hasC, queue, rr, Settings, ylast, ystart, yset, everY, everF, ok>>
-Drop == /\ alive /\ alive' = FALSE /\ buf' = <<>> /\ lastC' = None /\ hasC' = [p \in Parts |-> FALSE]
-        /\ ylast' = None /\ ystart' = None /\ yset' = [p \in Parts |-> {}]
+                /\ \E p \in Parts : /\ hasC[p] /\ ~Skipped(lstored, p, lastC[p])
+                                    /\ committed' = [committed EXCEPT ![p] = lastC[p]]
+                                    /\ lstored' = [lstored EXCEPT ![p] = lastC[p]]
+                                    /\ liveStored' = [liveStored EXCEPT ![p] = MaxOf(@, lastC[p])]
+                /\ UNCHANGED <<len, alive, buf, lastC, hasC, queue, zc, zs, rr, Settings, Hist>>
+(* ... and, as found, goes on doing so with the dropped consumer's last position *)
+ZombieTick == /\ Zombie /\ mode \in IntervalModes
+              /\ \E p \in Parts : /\ zc[p] # -1 /\ ~Skipped(zs, p, zc[p])
+                                  /\ committed' = [committed EXCEPT ![p] = zc[p]]
+                                  /\ zs' = [zs EXCEPT ![p] = zc[p]]
+              /\ UNCHANGED <<len, alive, buf, lastC, hasC, lstored, queue, zc, rr, Settings, Hist, liveStored>>
+Drop == /\ alive /\ alive' = FALSE /\ buf' = <<>> /\ lastC' = None /\ hasC' = [p \in Parts |-> FALSE] /\ lstored' = Zero
+        /\ zc' = [p \in Parts |-> IF hasC[p] THEN lastC[p] ELSE -1] /\ zs' = lstored
+        /\ ylast' = None /\ ystart' = None /\ yset' = [p \in Parts |-> {}] /\ liveStored' = None
         /\ UNCHANGED <<len, committed, queue, rr, Settings, everY, everF, ok>>
-(* a new consumer object with the same identity, once the old one's commits have landed *)
+(* a new consumer object with the same identity, once the old one's queued commits have landed *)
 Recreate == /\ ~alive /\ queue = <<>> /\ alive' = TRUE
-            /\ UNCHANGED <<len, committed, buf, lastC, hasC, queue, rr, Settings, ylast, ystart, yset, everY, everF, ok>>
+            /\ UNCHANGED <<len, committed, buf, lastC, hasC, lstored, queue, zc, zs, rr, Settings, Hist, liveStored>>
 
-ANext == (\E p \in Parts : Produce(p)) \/ Fetch \/ Yield \/ Deliver \/ IntervalTick \/ Drop \/ Recreate
+ANext == (\E p \in Parts : Produce(p)) \/ Fetch \/ Yield \/ Deliver \/ IntervalTick \/ ZombieTick \/ Drop \/ Recreate
 ASpec == AInit /\ [][ANext]_avars
 
 MyParts == IF group THEN Parts ELSE {1}
-(* the consumer has nothing in hand, its commits have landed and no poll would bring anything new *)
+(* the consumer has nothing in hand, its commits have landed and no poll would bring or change anything *)
 Idle == /\ alive /\ buf = <<>> /\ queue = <<>>
         /\ \A p \in MyParts : KeptOf(p) = <<>> /\ ~CatchUpWould(p)
-        /\ (mode \in IntervalModes => \A p \in MyParts : hasC[p] => committed[p] >= lastC[p])
+        /\ (mode \in IntervalModes => \A p \in MyParts : hasC[p] => (committed[p] >= lastC[p] \/ Skipped(lstored, p, lastC[p])))
 (* every message of its partitions: yielded by this incarnation, or acknowledged before it first looked *)
 Complete == Idle => \A p \in MyParts : \A o \in 0..(len[p] - 1) :
                       o \in yset[p] \/ (ystart[p] # -1 /\ o < ystart[p]) \/ (ystart[p] = -1 /\ o <= committed[p])
 InOrderOnce == ok
 InvCommitLeFetched == CommitLeFetched(committed, everF, Parts)
 InvCommitLeYielded == mode \notin PollingModes => CommitLeYielded(committed, everY, Parts)
+(* a consumer object that has been dropped never moves the identity's offset back under its successor: what the live consumer *)
+(* has committed itself stays committed.  (The live consumer's own commits may overtake each other - only ever back to offset *)
+(* 0, which its "already stored" shortcut never skips; the property speaks of what it commits, not of their order.)          *)
+NoRewindByDropped == [][ZombieTick => \A p \in Parts : committed'[p] >= liveStored[p]]_avars
 =============================================================================
